@@ -365,6 +365,11 @@ def rule_awake(ctx):
 
 
 def run(ctx):
+    from ..report import SubCtx
+    from . import c09
+    sub = SubCtx(ctx, 'C05.queue', 'logical time is exact only if the scheduler queues hand out the earliest entry: the priority-queue contract of the task queue (heap shape on every path, counters, re-insertion), as decided for C09')
+    c09.rule_inv(sub)
+    c09.rule_key(sub)
     rule_src(ctx)
     rule_taint(ctx)
     rule_exact(ctx)
@@ -375,6 +380,9 @@ def run(ctx):
 
 
 MUTANTS = [
+    dict(rule='C05.queue', name='queue re-insertion updates the entry in place (seeds C08-e, C05-f)', file='sc3/base/_taskq.py',
+         old="        if task in self._entry_finder:\n            self.remove(task)\n        count = next(self._counter)\n        entry = [prio, count, task]\n        self._entry_finder[task] = entry\n        heapq.heappush(self._queue, entry)",
+         new="        count = next(self._counter)\n        if task in self._entry_finder:\n            entry = self._entry_finder[task]\n            entry[0] = prio\n            entry[1] = count\n            return\n        entry = [prio, count, task]\n        self._entry_finder[task] = entry\n        heapq.heappush(self._queue, entry)"),
     dict(rule='C05.taint', name='NRT wake-up re-derives beats from seconds (fix reverted)', file='sc3/base/clock.py',
          old="            delta = self.task.__awake__(self.clock)\n            if isinstance(delta, (int, float)) and not isinstance(delta, bool)\\\n            and delta != float('inf'):  # As sched.\n                self.beats = self.beats + delta\n",
          new="            beats = self.clock.secs2beats(time)\n            delta = self.task.__awake__(self.clock)\n            if isinstance(delta, (int, float)) and not isinstance(delta, bool)\\\n            and delta != float('inf'):  # As sched.\n                self.beats = beats + delta\n"),
